@@ -94,7 +94,7 @@ theorem wr_append_one (m a : List Byte) (x : Byte) :
 
 open Lean.Parser.Tactic in
 macro "mach_simp" "[" ts:simpLemma,* "]" : tactic =>
-  `(tactic| simp [desc, dRef, dLen, dCap, dStr, newData, memCopy, rdRange, memOf, storeChar, setLen, setRef, setCap, updBlk,
+  `(tactic| simp [desc, dRef, dLen, dCap, dStr, newData, charsOf, setStr, memCopy, rdRange, memOf, storeChar, setLen, setRef, setCap, updBlk,
       atomicInc, atomicDec, deleteData, setData, endLife, capRule, ctorRule, Generated.capMask, Generated.ctorMask, allocSet,
       setEmpty, release, setVar, share, ctorPtr, mkBlock, wr_append_one, upd_upd_same, Option.bind_assoc, $ts,*])
 
